@@ -112,9 +112,11 @@ def lemma(name, prop, over):
 TABLES = []
 
 
-def table(name, prop):
+def table(name, prop, also=()):
     """an obligation over finite concrete data, discharged by evaluation (back end `eval`)"""
     def deco(fn):
         TABLES.append((name, prop, fn))
+        for p in also:
+            TABLES.append((name, p, fn))
         return fn
     return deco
